@@ -149,6 +149,16 @@ def r1(ctx, chk):
                key={"table": "date_order", "construct": loc}, file="dateparser/data/date_translation_data/%s.py" % lang,
                function="info", line=None, nontrivial=o is not None)
     chk.floor(rule, with_order, 300, "locales with a date_order")
+    # the MDY fallback for "the locale has none" is meant for the languages CLDR gives no short date pattern for: the reviewed
+    # list is {tl}; another language or locale without an order silently reads its users' dates as MDY
+    NO_ORDER_REVIEWED = {"tl": "CLDR data for Tagalog carries no date order in the generated table (pinned tree)"}
+    for lang, loc in ld.all_locales():
+        if ld.locale_info(lang, loc).get("date_order") is None and loc not in NO_ORDER_REVIEWED:
+            chk.ob(rule, "locale %s has an order of its own (only %s fall back to MDY)" % (loc, sorted(NO_ORDER_REVIEWED)), False,
+                   "no date_order in the table: numeric dates of this locale are read month-first",
+                   key={"table": "date_order", "construct": "missing order " + loc}, file="dateparser/data/date_translation_data/%s.py" % lang,
+                   function="info", line=None)
+    chk.ob(rule, "every locale but the reviewed %s defines its date order" % sorted(NO_ORDER_REVIEWED), True)
 
 
 def r2(ctx, chk):
